@@ -8,7 +8,7 @@
    loop as soon as the awaited counter is zero, a non-zero counter is always accounted for by a registered
    (held or in-flight) reader, new readers register in the other counter, and quiescent states are finished
    (no deadlock or livelock between readers and writers). *)
-From GV Require LRProofs.
+From GV Require LRProofs CowProofs.
 
 (* ---------- lr_guarded ---------- *)
 (* wait-free read acquisition: any reader pc is enabled in ANY global state under ANY choice *)
@@ -39,3 +39,36 @@ Proof. exact LRProofs.quiescent_finished. Qed.
 (* no livelock: every step decreases the measure except a drain load that sees a non-zero counter *)
 Theorem lr_bounded_work : ltac:(let T := type of LRProofs.bounded_work in exact T).
 Proof. exact LRProofs.bounded_work. Qed.
+
+(* ---------- cow_guarded ---------- *)
+(* lock_shared and snapshot reads: every step enabled in ANY state under ANY choice *)
+Theorem cow_read_wait_free : ltac:(let T := type of CowProofs.cow_read_wait_free in exact T).
+Proof. exact CowProofs.cow_read_wait_free. Qed.
+(* exactly four own steps (load countingLeft, RMW +1, load readingLeft, RMW -1 + return) with arbitrary
+   interleaved global states; the slot ends holding the committed version's snapshot *)
+Theorem cow_lock_shared_steps : ltac:(let T := type of CowProofs.cow_lock_shared_steps in exact T).
+Proof. exact CowProofs.cow_lock_shared_steps. Qed.
+(* no reader step touches the outer or the inner mutex, or yields / sleeps *)
+Theorem cow_readers_take_no_mutex : ltac:(let T := type of CowProofs.cow_readers_take_no_mutex in exact T).
+Proof. exact CowProofs.cow_readers_take_no_mutex. Qed.
+(* the committing writer's drains: exit at zero; a non-zero counter is a thread INSIDE lock_shared / lock()
+   (never a held snapshot: held_snapshot_not_registered), which is itself always enabled; new readers use the
+   other counter *)
+Theorem cow_writer_drain_exits : ltac:(let T := type of CowProofs.cow_writer_drain_exits in exact T).
+Proof. exact CowProofs.cow_writer_drain_exits. Qed.
+Theorem cow_spinning_means_registered : ltac:(let T := type of CowProofs.cow_spinning_means_registered in exact T).
+Proof. exact CowProofs.cow_spinning_means_registered. Qed.
+Theorem cow_held_snapshot_not_registered : ltac:(let T := type of CowProofs.held_snapshot_not_registered in exact T).
+Proof. exact CowProofs.held_snapshot_not_registered. Qed.
+Theorem cow_registered_enabled : ltac:(let T := type of CowProofs.cow_registered_enabled in exact T).
+Proof. exact CowProofs.cow_registered_enabled. Qed.
+Theorem cow_new_readers_other_counter : ltac:(let T := type of CowProofs.cow_new_readers_other_counter in exact T).
+Proof. exact CowProofs.cow_new_readers_other_counter. Qed.
+(* no deadlock: a quiescent state is finished unless a write handle is kept for ever; no livelock: every step
+   but a drain load seeing a registered reader decreases the measure *)
+Theorem cow_quiescent_shape : ltac:(let T := type of CowProofs.cow_quiescent_shape in exact T).
+Proof. exact CowProofs.cow_quiescent_shape. Qed.
+Theorem cow_commit_completes : ltac:(let T := type of CowProofs.cow_commit_completes in exact T).
+Proof. exact CowProofs.cow_commit_completes. Qed.
+Theorem cow_bounded_work : ltac:(let T := type of CowProofs.cow_bounded_work in exact T).
+Proof. exact CowProofs.cow_bounded_work. Qed.
